@@ -55,6 +55,7 @@ package rfc3961
 //@   requires len(secret) + len(salt) > 0
 //@   trusted_frame returned slices are not tracked as fresh; in-place append into spare capacity cannot be excluded
 //@   requires tagof(e) == typeid("crypto.Des3CbcSha1Kd")
+//@   ensures err == nil ==> bytes(k) == s2k_des3(tagof(e), bytes(secret), bytes(salt))
 //@ func crypto/rfc3961.PseudoRandom(key, b, e) (r, err)
 //@   pure
 //@   trusted_frame returned slices are not tracked as fresh; in-place append into spare capacity cannot be excluded
@@ -77,6 +78,7 @@ package rfc3961
 //@   trusted_frame returned slices are not tracked as fresh; in-place append into spare capacity cannot be excluded
 //@   requires len(m) > 0 && n > 0 && n % 8 == 0
 //@   ensures len(r) == n / 8
+//@   ensures bytes(r) == nfold(bytes(m), n)
 //@ func crypto/rfc3961.rotateRight(b, step) (r)
 //@   trusted n-fold helper: bit-index arithmetic (division/modulo by symbolic lengths); covered by the bounded n-fold stand-in in C08
 //@   pure
